@@ -8,3 +8,8 @@ open Pynenc.C07
 #print axioms registered_only_by_registration
 #print axioms new_only_when_none_registered
 #print axioms keyIn_symm
+#print axioms newInvocation_preserves
+#print axioms routeCall_preserves
+#print axioms setStatus_preserves
+#print axioms census_init
+#print axioms census_holds_after_any_history
